@@ -94,11 +94,19 @@ def text_layer(*modules):
         z[...] = CF(0.0)
         return z
 
+    def full(shape, fill_value, dtype=None, **kw):
+        z = np.empty(shape, dtype=object)
+        z[...] = CF(fill_value) if isinstance(fill_value, (int, float)) else fill_value
+        return z
+
+    def ones(shape, dtype=None, **kw):
+        return full(shape, 1.0)
+
     saved = []
     for m in modules:
         saved.append((m, m.__dict__.get("np"), m.__dict__.get("float", None), "float" in m.__dict__))
         if "np" in m.__dict__:
-            m.np = _Proxy(np, savetxt=savetxt, zeros=zeros, isnan=_isnan)
+            m.np = _Proxy(np, savetxt=savetxt, zeros=zeros, isnan=_isnan, full=full, ones=ones, empty=zeros)
         m.float = tok.parse
     try:
         yield tok
